@@ -52,6 +52,10 @@ type SymArr struct {
 type symWrite struct {
 	idx *Term
 	val Value
+	// bulk copy (append(a, b...)): n elements from src starting at srcOff
+	src    *SymArr
+	srcOff *Term
+	n      *Term
 }
 
 // Iface is an interface value; dyn==nil is the nil interface.
